@@ -25,7 +25,7 @@ structure WF (L : Ledger) : Prop where
 
 /-- every id the block creates, in creation order, with its kind -/
 def Block.created (b : Block) : List (Kind × Id) :=
-  b.txns1.flatMap Txn1.created ++ (b.txns2.flatMap Txn2.created ++ (b.payouts.map (fun x => (Kind.sc, x.1)) ++
+  b.txns1.flatMap Txn1.created ++ (b.v2txns.flatMap Txn2.created ++ (b.payouts.map (fun x => (Kind.sc, x.1)) ++
   ((Kind.sc, b.foundationOutId) :: b.expiring.flatMap (fun x => x.2.map (fun i => (Kind.sc, i))))))
 
 /-- hash-collision freedom: the ids a block creates are pairwise distinct and not in the ledger -/
@@ -213,7 +213,7 @@ theorem loop_v2 {T} (mw : Nat) (l : List Txn2) : ∀ (ms ms' : Mid) (R : List (K
     refine ⟨hI2, hF2, hb2.trans hb1, ?_, hS2.trans hS1, ?_, Nat.le_trans hpl1 hpl2, ?_⟩
     · simp only [List.map_cons, List.sum_cons]
       unfold claimsV2; rw [ha]; simp only []
-      cur_omega
+      c1_omega
     · rw [List.foldlM_cons, bind_eq_ok]; exact ⟨ms1, ha, ha2⟩
     · intro hcs
       obtain ⟨c1, q1⟩ := hsv1 hcs
@@ -417,7 +417,7 @@ theorem sum_flatten_nat (l : List (List Nat)) : l.flatten.sum = (l.map List.sum)
 
 /-- siafund output sums of a transaction do not wrap a uint64 (guaranteed in Go by the block weight limit) -/
 def SfNoWrap (b : Block) : Prop :=
-  (∀ t ∈ b.txns1, (t.sfOuts.map (·.2.1)).sum < u64Limit) ∧ (∀ t ∈ b.txns2, (t.sfOuts.map (·.2.1)).sum < u64Limit)
+  (∀ t ∈ b.txns1, (t.sfOuts.map (·.2.1)).sum < u64Limit) ∧ (∀ t ∈ b.v2txns, (t.sfOuts.map (·.2.1)).sum < u64Limit)
 
 /-- the finite id lists of the model cover every output that is created (always true of `ValidOutputID(i)`,
 `MissedOutputID(i)` in Go) -/
@@ -428,11 +428,11 @@ def IdListsCover (L : Ledger) (b : Block) (pid : Id) : Prop :=
 def Block.claims (L : Ledger) (b : Block) : Nat :=
   claimsV1 (newMid L) b.txns1 +
   (match b.txns1.foldlM applyTransaction (newMid L) with
-    | .ok ms1 => claimsV2 ms1 b.txns2
+    | .ok ms1 => claimsV2 ms1 b.v2txns
     | .error _ => 0)
 
 /-- total value forfeited by missed v2 expirations in the block -/
-def Block.forfeits (b : Block) : Nat := (b.txns2.map Txn2.forfeits).sum
+def Block.forfeits (b : Block) : Nat := (b.v2txns.map Txn2.forfeits).sum
 
 theorem block_conserves {L : Ledger} {b : Block} {pid : Id} {msv : Mid}
     (hw : WF L) (hf : FreshIds L b) (hfix : L.child ≥ L.P.ephemeralFix) (hnw : SfNoWrap b)
@@ -454,7 +454,7 @@ theorem block_conserves {L : Ledger} {b : Block} {pid : Id} {msv : Mid}
     hnw.1 hsf0 hl1
   have hb1' : ms1.base = L := hb1
   -- v2 transactions
-  obtain ⟨hI2, hF2, hb2, hP2, hS2, ha2, hpl2, hsv2⟩ := loop_v2 b.maxWeight b.txns2 ms1 msv _ (hb1' ▸ hc) (hb1' ▸ hfix) hI1 hF1
+  obtain ⟨hI2, hF2, hb2, hP2, hS2, ha2, hpl2, hsv2⟩ := loop_v2 b.maxWeight b.v2txns ms1 msv _ (hb1' ▸ hc) (hb1' ▸ hfix) hI1 hF1
     hnw.2 (hS1 ▸ hsf0) hl2
   have hb2' : msv.base = L := hb2.trans hb1'
   -- miner payouts
@@ -484,23 +484,23 @@ theorem block_conserves {L : Ledger} {b : Block} {pid : Id} {msv : Mid}
     (fun x hx => ⟨hb4' ▸ hexp x hx, hcov.2 x hx⟩) (by simpa using hF4) hl5
   have hpool5 : ms5.pool = msv.pool := by rw [hp5, hp4, hp3]
   refine ⟨ms5, ?_, hI5, hb5.trans hb4', ?_, ?_, ?_, ?_⟩
-  · rw [midApplyBlock_eq]
+  · rw [midApplyBlock_eq_c1]
     have hcond' : ¬ ((newMid L).base.child ≥ (newMid L).base.P.v2Require ∧ (b.txns1.length ≠ 0 ∨ b.expiring.length ≠ 0)) := hcond
     rw [if_neg hcond', bind_eq_ok]
     refine ⟨ms1, ha1, ?_⟩
     rw [bind_eq_ok]; refine ⟨msv, ha2, ?_⟩
     rw [bind_eq_ok]; refine ⟨ms3, hl3, ?_⟩
     rw [bind_eq_ok]; refine ⟨sub, by rw [hb3']; exact hsub, hl5⟩
-  · have hcl : b.claims L = claimsV1 (newMid L) b.txns1 + claimsV2 ms1 b.txns2 := by
+  · have hcl : b.claims L = claimsV1 (newMid L) b.txns1 + claimsV2 ms1 b.v2txns := by
       unfold Block.claims; rw [ha1]
     have hfe1 : b.fees1.sum = (b.txns1.map (·.fees.sum)).sum := by
       unfold Block.fees1; rw [sum_flatten_nat, List.map_map]; rfl
-    have hfe2 : b.fees2.sum = (b.txns2.map (·.fee)).sum := rfl
+    have hfe2 : b.fees2.sum = (b.v2txns.map (·.fee)).sum := rfl
     rw [hP5, hP4, hP3, hsv, hcl]
     unfold Block.forfeits
     rw [Phi_newMid] at hP1
     clear hv hvo hvs hl1 hl2 hl3 ha1 ha2 hF0 hF1 hF2 hF3
-    cur_omega
+    c1_omega
   · rw [hS5, hS4, hS3, hS2, hS1, sfTot_newMid]
   · rw [hpool5]; exact Nat.le_trans hpl1 hpl2
   · intro hcs
@@ -510,7 +510,7 @@ theorem block_conserves {L : Ledger} {b : Block} {pid : Id} {msv : Mid}
       (sfSame_payouts hl3).trans ((sfSame_subsidy ms3 b sub).trans (sfSame_expiring hl5))
     obtain ⟨q5, c5⟩ := Psi_shift s35 0 (by rw [hpool5]; rfl) c2
     refine ⟨c5, ?_⟩
-    have hcl : b.claims L = claimsV1 (newMid L) b.txns1 + claimsV2 ms1 b.txns2 := by
+    have hcl : b.claims L = claimsV1 (newMid L) b.txns1 + claimsV2 ms1 b.v2txns := by
       unfold Block.claims; rw [ha1]
     rw [hcl, q5, hpool5]
     rw [hS1, sfTot_newMid] at q2
